@@ -29,7 +29,10 @@ def request_pool(rng, policy):
         ("get11", req(headers=[HOST])),
         ("get11", req(target=b"/x?y=1", headers=[HOST, (b"Accept", b"*/*")])),
         ("get10", req(version=b"1.0")),
-        ("close", req(headers=[HOST, (b"Connection", rng.choice([b"close", b"Close", b"keep-alive, close"]))])),
+        ("close", req(headers=[HOST, (b"Connection", rng.choice([b"close", b"Close", b"keep-alive, close", b"TE,close", b"close,TE",
+                                                                  b"close ,TE", b"upgrade ,\tclose"]))])),
+        ("close", req(headers=[HOST, (b"Connection", rng.choice([b"keep-alive", b"TE"])), (b"Connection", b"close")])),
+        ("get11", req(headers=[HOST, (b"Connection", rng.choice([b"keep-alive", b"Keep-Alive,TE", b"upgrade"]))])),
         ("post", req(b"POST", b"/p", headers=[HOST, (b"Content-Length", b"5")], body=b"hello")),
         ("post0", req(b"POST", b"/p", headers=[HOST, (b"Content-Length", b"0")])),
         ("chunked", req(b"POST", b"/c", headers=[HOST, (b"Transfer-Encoding", b"chunked")], chunks=[b"abc", b"de"])),
@@ -80,7 +83,7 @@ def server_line(rng, force=None):
         "flavour": rng.choice(["tcp", "tcp", "ssl"]),
         "policy": rng.choice(["sync", "sync", "sync", "deferred", "router", "none"]),
         "chunkh": rng.choice([0, 0, 1]),
-        "conth": rng.choice([0, 0, 1]),
+        "conth": rng.choice([0, 0, 1, 1, 2]),
         "invh": rng.choice([0, 0, 0, 1]),
         "senth": rng.choice([0, 1]),
         "trace": 0,
